@@ -52,6 +52,7 @@ def run(ctx, rep):
     rep.run(RH2.rule_matlab_calls, ctx, rep, "K12")
     rep.run(RH2.rule_primary_templates_raise, ctx, rep, "K13")
     rep.run(RH2.rule_wide_integers_read_exactly, ctx, rep, "K14")
+    rep.run(RH.rule_strings_by_evaluation, ctx, rep, "K15")
 
 
 def run_thorough(ctx, rep):
